@@ -31,6 +31,9 @@ T = {
  "C07": ("differential monitor: N-row entry point vs the single-item entry point of the real code on every row",
          "Runtime monitoring: for 50 operation pairs (QuaternionArray vs Quaternion incl. both storage orders and 7 from_DCM methods, N-by-3-by-3 hughes/chiaverini, q2R, rpy2q, am2angles, ned2enu, five metrics, every single-frame estimator x method x representation x frame) generated rows (half-turns, near-identity, near-pi, coordinate-plane axes, magnitudes over 5 decades) are run through both copies and compared row by row without sign freedom; one-row batch and one-sample constructor calls are compared with estimate() using the same options.",
          "NumPy; both sides are library code; closed-form from_DCM rows above pi-1e-6 and metric pairs below 1e-4 rad are outside C02/C18's domains and not paired", "5/C07"),
+ "C04": ("reference-model monitor: generated true attitude -> noise-free measurements from the estimator's own references -> real estimator -> direction table oracle",
+         "Runtime monitoring: 35 estimator routes (TRIAD, Davenport, QUEST, FLAE x3, OLEQ random start and injected fixed point, SAAM, FAMC, FQA, Tilt x4, AQUA x3, ecompass x6, am2DCM, am2q, am2angles, acc2q; NED/ENU) are run on exact images of their reference directions under attitudes in general position (all routes) and Haar-generic plus 41 named special poses (singularity-free class), dips +-80 deg, scales over 5 decades; the returned rotation must map references onto measurements within 1e-9 / 1e-7 rad.",
+         "NumPy; frozen direction table (validated on the pinned tree against docstrings); OLEQ random-start inexactness is a known finding, its fixed point is checked by start injection", "5/C04"),
 }
 
 def main():
